@@ -64,6 +64,11 @@ impl Scenario for Hb {
             v.push(json!({"h": h, "server": chatty, "client_at": []}));
             v.push(json!({"h": h, "server": chatty, "client_at": [h * 500, h * 1500, h * 2600]}));
             v.push(json!({"h": h, "server": [], "client_at": [h * 700, h * 1400]}));
+            // a broker that takes 1.5 intervals to answer Open: the timers run during the handshake
+            v.push(json!({"h": h, "server": [], "client_at": [], "open_delay_ms": h * 1500}));
+            // (whole frames only here: the client makes a request while the server is talking)
+            let chatty_frames: Vec<Value> = (1..=13).map(|i| json!([i * h * 900, "hb"])).collect();
+            v.push(json!({"h": h, "server": chatty_frames, "client_at": [], "open_delay_ms": h * 1500}));
         }
         // heartbeats off: silence is never fatal, nothing is sent
         v.push(json!({"h": 0, "server": [], "client_at": []}));
@@ -84,6 +89,7 @@ impl Scenario for Hb {
         let h = p["h"].as_u64().unwrap();
         let mut hs = Handshake::default();
         hs.tune = (2047, 131072, h as u16);
+        hs.open_ok_delay_ns = p["open_delay_ms"].as_u64().unwrap_or(0) * MS;
         let mut broker = StdBroker::new(hs);
         let hbf = frame_bytes(&amq_protocol::frame::AMQPFrame::Heartbeat(0));
         let mut byte_ix = 0usize;
